@@ -295,11 +295,13 @@ pub struct SchemaGen<'t, 'd> {
 	/// record fullname -> names referenced (by Ref) anywhere inside its definition
 	direct: HashMap<String, Vec<String>>,
 	collecting: Vec<Vec<String>>,
+	/// fixed(12)+duration definitions: the crate selects/reports them as "Duration"
+	duration_names: HashSet<String>,
 }
 
 impl<'t, 'd> SchemaGen<'t, 'd> {
 	pub fn new(tape: &'t mut Tape<'d>, cfg: GenCfg) -> Self {
-		SchemaGen { tape, cfg, nodes: 0, used_names: HashSet::new(), closed: Vec::new(), open: Vec::new(), forbid_open: false, direct: HashMap::new(), collecting: Vec::new() }
+		SchemaGen { tape, cfg, nodes: 0, used_names: HashSet::new(), closed: Vec::new(), open: Vec::new(), forbid_open: false, direct: HashMap::new(), collecting: Vec::new(), duration_names: HashSet::new() }
 	}
 
 	pub fn gen(&mut self) -> MSchema {
@@ -418,7 +420,8 @@ impl<'t, 'd> SchemaGen<'t, 'd> {
 			return self.gen_primitive();
 		}
 		// choice weights: primitives 40%, complex 60%
-		let c = self.tape.below(if in_union { 15 } else { 16 });
+		// the root is biased towards complex types
+		let c = if depth == 0 && self.tape.chance(200) { 6 + self.tape.below(10) } else { self.tape.below(if in_union { 15 } else { 16 }) };
 		match c {
 			0..=5 => self.gen_primitive(),
 			6 | 7 => {
@@ -554,7 +557,10 @@ impl<'t, 'd> SchemaGen<'t, 'd> {
 				let l = self.decimal_params(Some(size));
 				MSchema::with(MType::Fixed { name, size }, l)
 			}
-			1 => MSchema::with(MType::Fixed { name, size: 12 }, MLogical::Duration),
+			1 => {
+				self.duration_names.insert(name.clone());
+				MSchema::with(MType::Fixed { name, size: 12 }, MLogical::Duration)
+			}
 			_ => {
 				let size = match self.tape.below(6) {
 					0 => 0,
@@ -613,12 +619,55 @@ impl<'t, 'd> SchemaGen<'t, 'd> {
 			}
 			words.insert(word);
 			names.insert(bname);
+			// sometimes add a "twin": same structure under another name, so that
+			// type-directed selection is genuinely ambiguous (C02)
+			let twin = if self.tape.chance(28) { self.twin_of(&b) } else { None };
 			branches.push(b);
+			if let Some(tw) = twin {
+				let tn = tw.fullname().unwrap().to_string();
+				if names.contains(&tn) {
+					self.undefine(&tw);
+				} else {
+					words.insert(format!("named:{tn}"));
+					names.insert(tn);
+					branches.push(tw);
+				}
+			}
 		}
 		if branches.is_empty() {
 			branches.push(MSchema::plain(MType::Null));
 		}
 		MSchema::plain(MType::Union(branches))
+	}
+
+	fn twin_of(&mut self, s: &MSchema) -> Option<MSchema> {
+		if s.logical.is_some() {
+			return None;
+		}
+		match &s.ty {
+			MType::Record { fields, .. } => {
+				// only when the fields define no named types themselves
+				let mut defs = Vec::new();
+				fields.iter().for_each(|(_, f)| collect_defs(f, &mut defs));
+				if !defs.is_empty() || fields.is_empty() {
+					return None;
+				}
+				let name = self.fresh_name();
+				self.direct.insert(name.clone(), Vec::new());
+				// conservative: the twin may only be referenced where the original may; do
+				// not make it referenceable at all
+				Some(MSchema::plain(MType::Record { name, fields: fields.clone() }))
+			}
+			MType::Enum { symbols, .. } => {
+				let name = self.fresh_name();
+				Some(MSchema::plain(MType::Enum { name, symbols: symbols.clone() }))
+			}
+			MType::Fixed { size, .. } => {
+				let name = self.fresh_name();
+				Some(MSchema::plain(MType::Fixed { name, size: *size }))
+			}
+			_ => None,
+		}
 	}
 
 	/// When a generated sub-schema is discarded, forget the names it defined.
@@ -634,6 +683,7 @@ impl<'t, 'd> SchemaGen<'t, 'd> {
 
 	fn branch_name_of(&self, s: &MSchema) -> String {
 		match &s.ty {
+			MType::Ref(n) | MType::Fixed { name: n, .. } if self.duration_names.contains(n) => "Duration".to_string(),
 			MType::Ref(n) => n.clone(),
 			MType::Record { name, .. } | MType::Enum { name, .. } | MType::Fixed { name, .. } => name.clone(),
 			_ => {
